@@ -396,7 +396,7 @@ void table(Tab& t)
     }
     SCN("div_sat<int>", "div_sat(x,y)", "%s", "y=0", true, { volatile int z = 0; use(etl::div_sat(7, (int)z)); });
     SCN("div_sat<unsigned>", "div_sat(x,y)", "%s", "y=0", true, { volatile unsigned z = 0; use(etl::div_sat(7u, (unsigned)z)); });
-    for (unsigned d : {255u, 256u, 100000u}) {
+    for (unsigned d : {256u, 257u, 100000u}) { // 255 is a valid (not ok) stored value: "may hold any number in [0, 255]"
         SCN("chrono::day", "day(unsigned)", "d=%u", d, true, { etl::chrono::day x(d); use(x); });
         SCN("chrono::month", "month(unsigned)", "m=%u", d, true, { etl::chrono::month x(d); use(x); });
     }
